@@ -10,7 +10,7 @@ use crate::Ctx;
 use std::panic::{catch_unwind, AssertUnwindSafe};
 
 fn reset_indices<const N: usize>(rig: &mut Rig<N>, ctx: &mut Ctx, v: u16) {
-    rig.q.verif_set_indices(v);
+    set_indices(&mut rig.q, v);
     hal::dev_write_u16(rig.a.dev + 2, v).unwrap();
     rig.avail_idx = v; rig.last_used = v; rig.dev_used_idx = v;
     // the store-level monitor counts entries from the (new) starting index
@@ -30,6 +30,8 @@ fn drain<const N: usize>(rig: &mut Rig<N>, ctx: &mut Ctx) {
 }
 
 fn directed<const N: usize>(ctx: &mut Ctx, flags: u8, cases: u64) {
+    // needs the index pre-set hook (absent in an alloc-less build of /repo without corpus/proposals/noalloc_hook.diff)
+    if !HAVE_HOOKS { ctx.tr.note("directed_skipped_no_index_hook"); return; }
     let event_idx = flags & 2 != 0;
     let mut rig = match Rig::<N>::new(ctx, flags & 1 != 0, event_idx, false, 0) { Some(r) => r, None => return };
     for _ in 0..cases {
@@ -63,6 +65,7 @@ fn directed<const N: usize>(ctx: &mut Ctx, flags: u8, cases: u64) {
 }
 
 fn cosim<const N: usize>(ctx: &mut Ctx, flags: u8, start: u16, policy: Policy, rounds: usize) {
+    let start = eff_start(start);
     let event_idx = flags & 2 != 0;
     let mut rig = match Rig::<N>::new(ctx, flags & 1 != 0, event_idx, false, start) { Some(r) => r, None => return };
     // submissions go through add_notify_wait_pop here, not through the rig: the store-level monitor is off
